@@ -35,6 +35,14 @@ NAMES = {
     "child.child.value": ("child.child.value", ("child", "child"), True),
     "child.children.value": ("child.children.items.value", ("child", "children"), True),
 }
+# names whose last element is not the plain attribute 'value': the attributes selected by metadata, and containers in terminal
+# position (the legacy handler hears whole-value changes and in-place changes of the container alike)
+FINALS = {
+    "child:+mtag": ("child:+mtag", ("child",), False, "+mtag"),
+    "child.mapping": ("child.mapping.items", ("child",), True, "mapping"),
+    "child.children": ("child.children.items", ("child",), True, "children"),
+    "child.group": ("child.group.items", ("child",), True, "group"),
+}
 MUTS = {
     "child": ["child=", "child=None", "grandchild=", "child_children_append", "bad_registration", "del_child"],
     "children": ["append", "insert", "del", "setitem", "reverse", "sort", "clear", "assign_list", "bad_registration", "del_children"],
@@ -125,7 +133,11 @@ def _swap_links(name):
 def harness_factory(lname, k, nargs, twins=False, form="lambda"):
     """twins: every object the mutations put into the graph compares EQUAL to every other one (value-based __eq__) while
     being a distinct object - reachability is a matter of identity"""
-    oexpr, steps, first_notifies = NAMES[lname]
+    final = "value"
+    if lname in FINALS:
+        oexpr, steps, first_notifies, final = FINALS[lname]
+    else:
+        oexpr, steps, first_notifies = NAMES[lname]
     muts = MUTS[steps[0]]
 
     def harness(ex):
@@ -194,6 +206,10 @@ def harness_factory(lname, k, nargs, twins=False, form="lambda"):
         else:
             lh = lambda obj, name, old, new: legacy.append((name, new))
         oh = lambda e: modern.append((e.name, e.new)) if type(e).__name__ == "TraitChangeEvent" and e.name == "value" else None
+        if final == "+mtag":
+            oh = lambda e: modern.append((e.name, e.new)) if e.name.startswith("tv_") else None
+        elif final != "value":
+            oh = lambda e: modern.append(type(e).__name__) if type(e).__name__ in ("ListChangeEvent", "DictChangeEvent", "SetChangeEvent") else None
         if form == "lambda":
             root.on_trait_change(lh, lname)
             root.observe(oh, oexpr)
@@ -227,7 +243,13 @@ def harness_factory(lname, k, nargs, twins=False, form="lambda"):
                     except Exception:
                         pass
             else:
-                mutate(ex, step, root, mut, fresh)
+                try:
+                    mutate(ex, step, root, mut, fresh)
+                except symx.PathAbort:
+                    raise
+                except Exception as e:
+                    ex.check(False, "a mutation of the graph raises nothing (%s)" % type(e).__name__)
+                    return {"trace": trace + [mut]}
             trace.append(mut)
             new_first = getattr(root, steps[0])
             # intermediate link changed (first link): '.' reports, ':' does not
@@ -254,13 +276,25 @@ def harness_factory(lname, k, nargs, twins=False, form="lambda"):
             # probe every node ever seen: final-attribute changes
             nodes = G.all_nodes(root, keep)
             reach = G.reachable(root, steps)
-            for node in nodes:
+            probes = [("value", True)]
+            if final == "+mtag":
+                probes = [("tv_a", True), ("tv_f", True), ("tv_n", False)]
+            elif final != "value":
+                probes = [(final, True)]
+            for node, (attr, selected) in [(n_, p_) for n_ in nodes for p_ in probes]:
                 legacy.clear()
                 modern.clear()
                 legacy2.clear()
                 modern2.clear()
-                node.value += 1
-                want = 1 if any(node is r for r in reach) else 0
+                if attr == "mapping":
+                    node.mapping["probe%d" % step] = fresh()          # in place
+                elif attr == "children":
+                    node.children.append(fresh())
+                elif attr == "group":
+                    node.group.add(fresh())
+                else:
+                    setattr(node, attr, getattr(node, attr) + 1)
+                want = 1 if (selected and any(node is r for r in reach)) else 0
                 if form == "methods":
                     ex.check(len(modern2) == want and len(legacy2) == want,
                              "a second listener object that compares equal to the first has its own registration")
@@ -274,6 +308,15 @@ def harness_factory(lname, k, nargs, twins=False, form="lambda"):
             legacy.clear()
             legacy2.clear()
             node.value += 1
+            if final == "+mtag":
+                node.tv_a += 1
+                node.tv_f += 1
+            elif final == "mapping":
+                node.mapping["gone"] = fresh()
+            elif final == "children":
+                node.children.append(fresh())
+            elif final == "group":
+                node.group.add(fresh())
             ex.check(legacy == [], "removing the registration stops all calls")
             if form == "methods":
                 ex.check(len(legacy2) == (1 if any(node is r for r in reach) else 0),
@@ -302,6 +345,12 @@ def obligations(tier, build):
                                       bounds={"extended name": lname, "observe expression": NAMES[lname][0], "history length": K,
                                               "objects": "pairwise equal (value-based __eq__), distinct", "list positions": "unbounded Int"},
                                       leverage="list indices; otherwise choice feasibility only", max_paths=100000, path_wall_s=60))
+    for lname in FINALS:
+        obs.append(Obligation("agree-final/%s/k=%d" % (lname, K), harness_factory(lname, K, 4), env=G.env, stubs=STUBS,
+                              bounds={"extended name": lname, "observe expression": FINALS[lname][0], "history length": K,
+                                      "final element": "attributes selected by metadata (true / false / undefined)" if lname.endswith("+mtag")
+                                      else "a container in terminal position, changed in place"},
+                              leverage="choice feasibility only", max_paths=100000, path_wall_s=60))
     FK = 2          # (the forms multiply the histories by the declaration flags: length 2 in both tiers, all names in thorough)
     for form in ("methods", "decorated", "overridden"):
         for lname in NAMES:
